@@ -100,6 +100,8 @@ Mis(pre, r, ev) ==
   LET o == r.obs
       post == r.st
   IN  Chk(ev.skip = o.skip, "skip", "HARNESS", o.skip, ev.skip)
+   \o Chk(ev.lockviol = <<>>, "lock-discipline", "C12", "every critical step on shared state runs with the lock held", ev.lockviol)
+   \o Chk(ev.q = o.q, "query-result", "C03 C06 C13 C12", o.q, ev.q)
    \o Chk(ev.acc = o.acc, "accepted", "C01 C02 C03 C05 C07", o.acc, ev.acc)
    \o Chk(ev.ret = o.ret /\ ev.thr = o.thr /\ ev.thrv = o.thrv, "result", "C02 C08 C03", <<o.ret, o.thr, o.thrv>>, <<ev.ret, ev.thr, ev.thrv>>)
    \o RepsMis(pre, o.reps, ev.reps)
@@ -109,7 +111,7 @@ Mis(pre, r, ev) ==
                          "trace-records", "C17", o.trs, ev.trs)
        ELSE <<>>)
    \o ClauseMis(pre, o, ev.cl)
-   \o IF post.unspec THEN <<>> ELSE
+   \o IF post.unspec \/ ev.conc = 1 THEN <<>> ELSE
       Chk(ev.fl = Flags(post), "flags", "C03 C01 C02 C07 C05 C14", Flags(post), ev.fl)
    \o Chk(ev.mon = MonFlags(post), "monitor-flags", "C13 C05", MonFlags(post), ev.mon)
    \o Chk(ev.comp = Completed(post), "is_completed", "C06 C05", Completed(post), ev.comp)
@@ -129,9 +131,16 @@ Consume ==
        [] ev.e = "EndSeg" ->
             /\ UNCHANGED <<st, bad, segid>>
             /\ viol' = IF (ev.exit # 0 \/ ev.sig # 0 \/ ev.san # "") /\ Len(viol) < 200
-                       THEN viol \o Stamp(<<V("process", "C14", "clean exit", <<ev.exit, ev.sig, ev.san>>)>>, l, segid)
+                       THEN viol \o Stamp(<<V("process", IF ev.exit = 66 THEN "C12" ELSE "C14 C12", "clean exit", <<ev.exit, ev.sig, ev.san>>)>>, l, segid)
                        ELSE viol
        [] ev.e = "Fin" -> UNCHANGED <<st, bad, segid, viol>>
+       [] ev.e = "final" ->       \* quiescent state after all threads joined (concurrent driver)
+            IF bad \/ st.unspec THEN UNCHANGED <<st, bad, segid, viol>>
+            ELSE LET ms == Chk(ev.fl = Flags(st), "final-flags", "C12 C03", Flags(st), ev.fl)
+                           \o Chk(ev.mon = MonFlags(st), "final-monitor-flags", "C12 C13", MonFlags(st), ev.mon)
+                           \o Chk(ev.comp = Completed(st), "final-is_completed", "C12 C06", Completed(st), ev.comp)
+                 IN  /\ UNCHANGED <<st, segid>> /\ bad' = (ms # <<>>)
+                     /\ viol' = IF Len(viol) < 200 THEN viol \o Stamp(ms, l, segid) ELSE viol
        [] ev.e = "Terminate" ->
             /\ UNCHANGED <<st, segid>> /\ bad' = TRUE
             /\ viol' = viol \o Stamp(<<V("terminate", "C15 C14", "no std::terminate", "terminate")>>, l, segid)
